@@ -95,6 +95,17 @@ class CsFn(Case):
                 ctx.prove(f"sizeof({name})==len", v == len(cs.resolve(name)))
             v = it.call(Expression.evaluate, [Expression(cs, "sizeof(S) * 2 + 1")])
             ctx.prove("sizeof-inside-expression", v == 11)
+            # sizeof speaks about the type of *this* cstruct object under its configuration, whatever was asked before elsewhere
+            for kw, text in (({"align": True}, "struct S { uint8 a; uint32 b; }; struct A { uint8 a; uint32 b; uint16 c[3]; };"),
+                             ({"align": False}, "struct S { uint64 q; uint8 r; }; struct A { S s[2]; };")):
+                c2 = cstruct()
+                c2.load(text, **kw)
+                for name in ("S", "A"):
+                    v2 = it.call(Expression.evaluate, [Expression(c2, f"sizeof({name})")])
+                    ctx.prove(f"other-object-{kw}/sizeof({name})==len", v2 == len(c2.resolve(name)), info=f"{v2} vs {len(c2.resolve(name))}")
+            c3 = cstruct(pointer="uint16")
+            c3.load("struct S { uint8 *p; uint8 t; };")
+            ctx.prove("other-pointer-width/sizeof(S)==len", it.call(Expression.evaluate, [Expression(c3, "sizeof(S)")]) == len(c3.S) == 3)
             try:
                 it.call(Expression.evaluate, [Expression(cs, "sizeof(uleb128)")])
                 ctx.prove("sizeof-dynamic-refused", False)
